@@ -175,6 +175,8 @@ pub struct TypeDef {
 
 #[derive(Clone, Debug, PartialEq, Eq, Hash, Serialize, Deserialize)]
 pub struct Variant {
+    #[serde(default)]
+    pub sty: u8,
     pub name: String,
     pub value: Option<Num>,
     pub default: bool,
@@ -183,6 +185,8 @@ pub struct Variant {
 
 #[derive(Clone, Debug, PartialEq, Eq, Hash, Serialize, Deserialize)]
 pub struct EnumDef {
+    #[serde(default)]
+    pub sty: u8,
     pub vis: bool,
     pub name: String,
     pub doc: Vec<String>,
@@ -223,6 +227,8 @@ pub struct ExtType {
 
 #[derive(Clone, Debug, PartialEq, Eq, Hash, Serialize, Deserialize)]
 pub struct ExtVal {
+    #[serde(default)]
+    pub sty: u8,
     pub vis: bool,
     pub name: String,
     pub ty: Ty,
@@ -289,30 +295,54 @@ pub struct Prog {
 
 // ---------------------------------------------------------------- printer
 
-/// Print an attribute list: rotated by `sty & 0x3f`, in one bracket or (bit 7) one bracket each.
-fn attr_lines(out: &mut String, ind: &str, mut attrs: Vec<String>, sty: u8) {
-    if attrs.is_empty() {
+/// Print the doc lines and the attribute list of one item.
+/// `sty & 0x3f` rotates the attribute list; bit 7 prints one bracket per attribute instead of
+/// one bracket for all; bit 6 changes where the doc lines go: instead of all before the
+/// attributes they are interleaved with the brackets (attribute bracket k is placed before doc
+/// line `(k*3 + rot) % (lines+1)`, so "all docs after the attributes", "attributes in the
+/// middle of a doc comment" and "a bracket between every two doc lines" all occur). The order
+/// of the doc lines among themselves is always the source order.
+fn head(out: &mut String, ind: &str, doc: &[String], mut attrs: Vec<String>, sty: u8) {
+    let rot = (sty & 0x3f) as usize;
+    if !attrs.is_empty() {
+        let n = attrs.len();
+        attrs.rotate_left(rot % n);
+    }
+    let brackets: Vec<String> = if attrs.is_empty() {
+        vec![]
+    } else if sty & 0x80 != 0 {
+        attrs.iter().map(|a| format!("{ind}#[{a}]")).collect()
+    } else {
+        vec![format!("{ind}#[{}]", attrs.join(", "))]
+    };
+    if sty & 0x40 == 0 || brackets.is_empty() {
+        for l in doc {
+            let _ = writeln!(out, "{ind}///{l}");
+        }
+        for b in brackets {
+            let _ = writeln!(out, "{b}");
+        }
         return;
     }
-    let n = attrs.len();
-    attrs.rotate_left((sty & 0x3f) as usize % n);
-    if sty & 0x80 != 0 {
-        for a in attrs {
-            let _ = writeln!(out, "{ind}#[{a}]");
-        }
-    } else {
-        let _ = writeln!(out, "{ind}#[{}]", attrs.join(", "));
+    // interleave
+    let slots = doc.len() + 1;
+    let mut at: Vec<Vec<&String>> = vec![vec![]; slots];
+    for (k, b) in brackets.iter().enumerate() {
+        // rot 0 puts the first bracket before the first doc line
+        let pos = (rot + k * 3) % slots;
+        at[pos].push(b);
     }
-}
-
-fn docs(out: &mut String, ind: &str, doc: &[String]) {
-    for l in doc {
-        let _ = writeln!(out, "{ind}///{l}");
+    for i in 0..slots {
+        for b in &at[i] {
+            let _ = writeln!(out, "{b}");
+        }
+        if i < doc.len() {
+            let _ = writeln!(out, "{ind}///{}", doc[i]);
+        }
     }
 }
 
 pub fn print_func(out: &mut String, ind: &str, f: &Func) {
-    docs(out, ind, &f.doc);
     let mut attrs = vec![];
     if let Some(i) = &f.index {
         attrs.push(format!("index({})", i.print()));
@@ -323,7 +353,7 @@ pub fn print_func(out: &mut String, ind: &str, f: &Func) {
     if let Some(c) = &f.cc {
         attrs.push(format!("calling_convention({:?})", c));
     }
-    attr_lines(out, ind, attrs, f.sty);
+    head(out, ind, &f.doc, attrs, f.sty);
     let args: Vec<String> = f
         .args
         .iter()
@@ -347,7 +377,6 @@ pub fn print_func(out: &mut String, ind: &str, f: &Func) {
 }
 
 pub fn print_type(out: &mut String, t: &TypeDef) {
-    docs(out, "", &t.doc);
     let mut attrs = vec![];
     if let Some(s) = &t.size {
         attrs.push(format!("size({})", s.print()));
@@ -370,7 +399,7 @@ pub fn print_type(out: &mut String, t: &TypeDef) {
     if t.defaultable {
         attrs.push("defaultable".into());
     }
-    attr_lines(out, "", attrs, t.sty);
+    head(out, "", &t.doc, attrs, t.sty);
     let _ = writeln!(out, "{}type {} {{", if t.vis { "pub " } else { "" }, t.name);
     if let Some(v) = &t.vft {
         if let Some(s) = &v.size {
@@ -383,7 +412,6 @@ pub fn print_type(out: &mut String, t: &TypeDef) {
         let _ = writeln!(out, "    }},");
     }
     for f in &t.fields {
-        docs(out, "    ", &f.doc);
         let mut attrs = vec![];
         if f.base {
             attrs.push("base".to_string());
@@ -391,7 +419,7 @@ pub fn print_type(out: &mut String, t: &TypeDef) {
         if let Some(a) = &f.addr {
             attrs.push(format!("address({})", a.print()));
         }
-        attr_lines(out, "    ", attrs, f.sty);
+        head(out, "    ", &f.doc, attrs, f.sty);
         let _ = writeln!(
             out,
             "    {}{}: {},",
@@ -404,7 +432,6 @@ pub fn print_type(out: &mut String, t: &TypeDef) {
 }
 
 pub fn print_enum(out: &mut String, e: &EnumDef) {
-    docs(out, "", &e.doc);
     let mut attrs = vec![];
     if let Some(s) = &e.singleton {
         attrs.push(format!("singleton({})", s.print()));
@@ -418,9 +445,7 @@ pub fn print_enum(out: &mut String, e: &EnumDef) {
     if e.defaultable {
         attrs.push("defaultable".into());
     }
-    if !attrs.is_empty() {
-        let _ = writeln!(out, "#[{}]", attrs.join(", "));
-    }
+    head(out, "", &e.doc, attrs, e.sty);
     let _ = writeln!(
         out,
         "{}enum {}: {} {{",
@@ -429,10 +454,8 @@ pub fn print_enum(out: &mut String, e: &EnumDef) {
         e.base
     );
     for v in &e.variants {
-        docs(out, "    ", &v.doc);
-        if v.default {
-            let _ = writeln!(out, "    #[default]");
-        }
+        let attrs = if v.default { vec!["default".to_string()] } else { vec![] };
+        head(out, "    ", &v.doc, attrs, v.sty);
         match &v.value {
             Some(n) => {
                 let _ = writeln!(out, "    {} = {},", v.name, n.print());
@@ -528,10 +551,8 @@ pub fn print_mod(m: &Mod) -> String {
         }
     }
     for ev in &m.ext_vals {
-        docs(&mut out, "", &ev.doc);
-        if let Some(a) = &ev.addr {
-            let _ = writeln!(out, "#[address({})]", a.print());
-        }
+        let attrs = ev.addr.iter().map(|a| format!("address({})", a.print())).collect();
+        head(&mut out, "", &ev.doc, attrs, ev.sty);
         let _ = writeln!(
             out,
             "{}extern {}: {};",
@@ -576,6 +597,30 @@ fn tpush(out: &mut Vec<Prog>, p: &Prog, mi: usize, ii: usize, f: &dyn Fn(&mut Ty
     }
 }
 
+/// keep only the bits in `mask` of every printing style in the program
+fn reset_sty(q: &mut Prog, mask: u8) {
+    let f = |fs: &mut Vec<Func>| fs.iter_mut().for_each(|f| f.sty &= mask);
+    for m in &mut q.mods {
+        for it in &mut m.items {
+            match it {
+                Item::Type(t) => {
+                    t.sty &= mask;
+                    t.fields.iter_mut().for_each(|x| x.sty &= mask);
+                    if let Some(v) = &mut t.vft {
+                        f(&mut v.funcs);
+                    }
+                }
+                Item::Enum(e) => {
+                    e.sty &= mask;
+                    e.variants.iter_mut().for_each(|x| x.sty &= mask);
+                }
+            }
+        }
+        m.impls.iter_mut().for_each(|im| f(&mut im.funcs));
+        m.ext_vals.iter_mut().for_each(|x| x.sty &= mask);
+    }
+}
+
 pub fn prog_candidates(p: &Prog) -> Vec<Prog> {
     let mut out: Vec<Prog> = vec![];
     // whole modules (and imports that mention them)
@@ -590,6 +635,8 @@ pub fn prog_candidates(p: &Prog) -> Vec<Prog> {
             });
         }
     }
+    ppush(&mut out, p, &|q: &mut Prog| reset_sty(q, 0x00));
+    ppush(&mut out, p, &|q: &mut Prog| reset_sty(q, 0xc0));
     for mi in 0..p.mods.len() {
         let m = &p.mods[mi];
         for ii in (0..m.items.len()).rev() {
